@@ -267,10 +267,14 @@ func TestMap(t *testing.T) { vk.Run(t, suite, "map", 4000, genMapPlan, runMap) }
 
 type WPlan struct {
 	Ops []int `json:"ops"` // 0 = Value, v>0 = Set(v)
+	// VType: "" = Watchable[int]; "any" = Watchable[any] where the zero value is the nil interface;
+	// "error" = Watchable[error] (nil error / distinct error values)
+	VType string `json:"vtype,omitempty"`
 }
 
 func genWPlan(t *rapid.T) WPlan {
-	return WPlan{Ops: rapid.SliceOfN(rapid.SampledFrom([]int{0, 0, 0, 1, 2, 3, 9}), 1, 25).Draw(t, "ops")} // 9 = Set(zero value)
+	return WPlan{Ops: rapid.SliceOfN(rapid.SampledFrom([]int{0, 0, 0, 1, 2, 3, 9}), 1, 25).Draw(t, "ops"), // 9 = Set(zero value)
+		VType: rapid.SampledFrom([]string{"", "", "any", "error"}).Draw(t, "vtype")}
 }
 
 func closed(c chan struct{}) bool {
@@ -282,10 +286,35 @@ func closed(c chan struct{}) bool {
 	}
 }
 
+type numErr int
+
+func (e numErr) Error() string { return fmt.Sprint("numErr ", int(e)) }
+
 func runW(p WPlan) (vk.Outcome, error) {
+	switch p.VType {
+	case "any":
+		return runWT[any](p, func(v int) any {
+			if v == 0 {
+				return nil
+			}
+			return v
+		})
+	case "error":
+		return runWT[error](p, func(v int) error {
+			if v == 0 {
+				return nil
+			}
+			return numErr(v)
+		})
+	}
+	return runWT[int](p, func(v int) int { return v })
+}
+
+func runWT[T comparable](p WPlan, conv func(int) T) (vk.Outcome, error) {
 	var out vk.Outcome
-	var w xsync.Watchable[int]
-	cur, sets := 0, 0
+	var w xsync.Watchable[T]
+	var cur T
+	sets := 0
 	type got struct {
 		c      chan struct{}
 		atSets int
@@ -297,7 +326,7 @@ func runW(p WPlan) (vk.Outcome, error) {
 		if o == 0 {
 			v, c := w.Value()
 			if v != cur {
-				return out, vk.Violf("watchable-value", "step %d: Value() = %d after %d Sets, want %d", i, v, sets, cur)
+				return out, vk.Violf("watchable-value", "step %d: Value() = %v after %d Sets, want %v", i, v, sets, cur)
 			}
 			if c == nil {
 				return out, vk.Violf("watchable-chan", "step %d: Value() returned a nil channel", i)
@@ -312,9 +341,9 @@ func runW(p WPlan) (vk.Outcome, error) {
 			lastWasSet = 0
 		} else {
 			sets++
-			cur = o*100 + sets
+			cur = conv(o*100 + sets)
 			if o == 9 {
-				cur = 0 // setting the zero value is a Set like any other
+				cur = conv(0) // setting the zero value is a Set like any other
 			}
 			w.Set(cur)
 			lastWasSet++
@@ -480,6 +509,9 @@ func runWC(p WCPlan) (vk.Outcome, error) {
 type FPlan struct {
 	Waiters []FW `json:"waiters"`
 	FillAt  int  `json:"fill_at"` // ms; -1 = never
+	// VType: the Future's type parameter and the value it is filled with: "" = int 4242, "int0" = int 0,
+	// "any-nil" = any(nil), "error-nil" = error(nil), "ptr-nil" = (*int)(nil), "any-int" = any(7)
+	VType string `json:"vtype,omitempty"`
 }
 type FW struct {
 	StartMs    int  `json:"start"`
@@ -489,7 +521,8 @@ type FW struct {
 }
 
 func genF(t *rapid.T) FPlan {
-	p := FPlan{FillAt: rapid.SampledFrom([]int{0, 5, 10, 10, 20}).Draw(t, "fillat")}
+	p := FPlan{FillAt: rapid.SampledFrom([]int{0, 5, 10, 10, 20}).Draw(t, "fillat"),
+		VType: rapid.SampledFrom([]string{"", "", "int0", "any-nil", "error-nil", "ptr-nil", "any-int"}).Draw(t, "vtype")}
 	for n := rapid.IntRange(1, 6).Draw(t, "n"); n > 0; n-- {
 		p.Waiters = append(p.Waiters, FW{StartMs: rapid.SampledFrom([]int{0, 5, 10, 15, 30}).Draw(t, "start"),
 			Timeout: rapid.SampledFrom([]int{0, 0, 3, 10, 50}).Draw(t, "timeout"), Plain: rapid.Bool().Draw(t, "plain"), CancelOnly: rapid.Bool().Draw(t, "cancelonly")})
@@ -498,11 +531,26 @@ func genF(t *rapid.T) FPlan {
 }
 
 func runF(p FPlan) (vk.Outcome, error) {
+	switch p.VType {
+	case "int0":
+		return runFT[int](p, 0)
+	case "any-nil":
+		return runFT[any](p, nil)
+	case "error-nil":
+		return runFT[error](p, nil)
+	case "ptr-nil":
+		return runFT[*int](p, nil)
+	case "any-int":
+		return runFT[any](p, 7)
+	}
+	return runFT[int](p, 4242)
+}
+
+func runFT[T comparable](p FPlan, val T) (vk.Outcome, error) {
 	var out vk.Outcome
 	nt := false
 	err := bubble(func() error {
-		f := xsync.NewFuture[int]()
-		const val = 4242
+		f := xsync.NewFuture[T]()
 		start := time.Now()
 		var wg sync.WaitGroup
 		errs := make([]error, len(p.Waiters))
@@ -511,7 +559,7 @@ func runF(p FPlan) (vk.Outcome, error) {
 			go func(i int, wt FW) {
 				defer wg.Done()
 				time.Sleep(time.Duration(wt.StartMs) * time.Millisecond)
-				var v int
+				var v T
 				var err error
 				if wt.Timeout == 0 && wt.Plain {
 					v = f.Wait()
@@ -536,7 +584,7 @@ func runF(p FPlan) (vk.Outcome, error) {
 					if wt.Timeout > 0 && deadline < p.FillAt {
 						errs[i] = vk.Violf("future-ctx", "waiter %d: its context ended at %dms, before Fill at %dms, yet WaitContext returned the value (at %dms)", i, deadline, p.FillAt, at)
 					} else if v != val {
-						errs[i] = vk.Violf("future-value", "waiter %d got %d, filled with %d", i, v, val)
+						errs[i] = vk.Violf("future-value", "waiter %d got %v, filled with %v", i, v, val)
 					} else if at < p.FillAt {
 						errs[i] = vk.Violf("future-early", "waiter %d returned at %dms, Fill is at %dms", i, at, p.FillAt)
 					} else if want := max(wt.StartMs, p.FillAt); at != want {
